@@ -94,8 +94,9 @@ def describe_endpoint(ep, host):
     """canonical form of what the endpoint constructor was given"""
     cn = type(ep).__name__
     if cn == "HostnameEndpoint":
-        h = ep._hostText if hasattr(ep, "_hostText") else ep._hostStr
-        return ["tcp", h, ep._port, host]
+        # HostnameEndpoint keeps an escaped / IDNA form of a non-ASCII host; the text handed to the
+        # constructor is the `host` element of the returned pair
+        return ["tcp", host, ep._port, host]
     if cn == "TorClientEndpoint":
         return ["tor", ep.host, ep.port, host]
     if cn == "_RecordedI2P":
